@@ -9,12 +9,13 @@ and each of three declaration forms (extern variable, typedef, function paramete
       the same type as the original (decltype / is_same);
   (3) the prototype interrogate records in the database for the function form likewise.
 Plus the corpus part: every shipped stub header that g++ accepts parses with zero errors;
-the name-lookup part (spec NameLookup) and the class-template instantiation part (spec TemplInst,
-see _c06_templ.py)."""
+the name-lookup part (spec NameLookup), the class-template instantiation part (spec TemplInst,
+see _c06_templ.py) and the non-type template parameter part (spec TemplNonType, _c06_templnt.py)."""
 import os, re, subprocess
 from ..common import MachineryError, REPO
 from .. import build, tlc, run, idb
 from ._c06_templ import templ_inst
+from ._c06_templnt import templ_nontype
 
 DECLS = "struct S {};\nstruct V {};\nnamespace ns { struct K {}; struct V {}; }\ntemplate<class A1, class A2> struct Pair {};\ntemplate<class A1> struct Box {};\n"
 PRELUDE = r'''#include <type_traits>
@@ -274,6 +275,9 @@ def run_check(ctx):
 
     # class-template instantiation: the type a member of an instantiation denotes ---------
     n_templ = templ_inst(ctx, work)
+
+    # non-type template parameters: array bounds, expression arguments, named constants, default chains
+    n_templ += templ_nontype(ctx, work)
 
     # how exact are the finding predicates?  members of each class vs. members that actually failed
     failed = set(rejected) | bad_ents | bad3
